@@ -43,7 +43,11 @@ def stretched_gates(gates, *, suffix=None, update=False):
 
         if gate.ideal_unitary:
             # Drop the last argument, which is the stretch factor
-            ideal_unitary = lambda *args: gate.ideal_unitary(args[:-1])
+            # Bind the parent's unitary now (not the loop variable), and pass
+            # its arguments on individually, without the stretch factor.
+            ideal_unitary = lambda *args, _parent=gate.ideal_unitary: _parent(
+                *args[:-1]
+            )
         else:
             ideal_unitary = None
 
